@@ -44,6 +44,7 @@ type c16sAlloc struct {
 	unheld  int                      // releases of an address that was not allocated at the time
 	allocs  int
 	lastRec *c16sAllocRec
+	abandoned       int // releases not carried out because their context was done
 	cancelOnRelease context.CancelFunc // armed by a terminate call: its context is cancelled when the next release starts
 }
 
@@ -63,11 +64,6 @@ func (a *c16sAlloc) alloc(free *[]net.IP) (*c16sAllocRec, error) {
 }
 
 func (a *c16sAlloc) release(free *[]net.IP, ip net.IP) error {
-	if a.cancelOnRelease != nil {
-		// the caller's deadline runs out while its release request is in flight
-		a.cancelOnRelease()
-		a.cancelOnRelease = nil
-	}
 	a.s.Pause()
 	a.s.Logf("release %v", ip)
 	r := a.cur[ip.String()]
@@ -101,8 +97,28 @@ func (a *c16sAlloc) AllocateIPv6(ctx context.Context, s *subscriber.Session, poo
 	return r.ip, nil, nil
 }
 
-func (a *c16sAlloc) ReleaseIPv4(ctx context.Context, ip net.IP) error { return a.release(&a.free4, ip) }
-func (a *c16sAlloc) ReleaseIPv6(ctx context.Context, ip net.IP) error { return a.release(&a.free6, ip) }
+// Like the repository's remote allocators (HTTP calls bound to ctx), a release
+// whose context is done by the time the request would go out is abandoned.
+func (a *c16sAlloc) ReleaseIPv4(ctx context.Context, ip net.IP) error {
+	return a.releaseCtx(ctx, &a.free4, ip)
+}
+func (a *c16sAlloc) ReleaseIPv6(ctx context.Context, ip net.IP) error {
+	return a.releaseCtx(ctx, &a.free6, ip)
+}
+
+func (a *c16sAlloc) releaseCtx(ctx context.Context, free *[]net.IP, ip net.IP) error {
+	if a.cancelOnRelease != nil {
+		// the caller's deadline runs out just as its release request is about to go out
+		a.cancelOnRelease()
+		a.cancelOnRelease = nil
+	}
+	if err := ctx.Err(); err != nil {
+		a.s.Logf("release %v abandoned: %v", ip, err)
+		a.abandoned++
+		return err
+	}
+	return a.release(free, ip)
+}
 
 type c16sAuth struct {
 	s        *simrt.Sim
